@@ -142,6 +142,22 @@ func genC14(g *Gen) {
 	lens := []int{0, 1, 2, 7, 8, 9, 15, 16, 17, 24, 31, 32, 33, 34, 40, 64, 100, 300}
 	expEdges := []int{math.MinInt32, math.MinInt32 + 1, math.MinInt32 + 50, -100000, -6300, -6212, -6211, -6210, -6177, -6176, -6175, -6141, -6100, -40, -1, 0, 1, 40,
 		6050, 6077, 6110, 6111, 6112, 6144, 6145, 6146, 6147, 6200, 100000, math.MaxInt32 - 50, math.MaxInt32 - 1, math.MaxInt32}
+	// coefficients K * 10^j + (one non-zero digit somewhere in the j low digits): exact-or-error at every position
+	lg := tailGrid(longJs)
+	g.gridRun(len(lg), 0.2, func(i int) {
+		c := g.longTailInt(lg[i])
+		sig := c.Bytes()
+		if g.r.Intn(3) == 0 {
+			sig = append(make([]byte, []int{1, 7, 16, 17, 33}[g.r.Intn(5)]), sig...)
+		}
+		exp := g.r.Intn(81) - 40 - lg[i].j
+		if g.r.Intn(4) == 0 {
+			exp = []int{eMin, eMax}[g.r.Intn(2)] - lg[i].j + g.r.Intn(80) - 40
+		}
+		e := Ev{"op": "Compose", "form": 0, "neg": g.r.Intn(2) == 0, "sig": ints(sig), "exp": exp}
+		e.setDec("prev", randAny(g.r))
+		g.emit(e)
+	})
 	for !g.w.full() {
 		switch g.r.Intn(3) {
 		case 0:
